@@ -115,6 +115,41 @@ def ddmin(ops, test, budget=160):
     return ops
 
 
+def replay(ctx, path):
+    """bin/check C16 --replay replays/C16-….json : re-execute the recorded operation list on the real
+    library of the current tree and re-judge it with the driver; 1 = it still fails."""
+    import json
+    ctx.ensure_ppl()
+    drv = ctx.ensure_pplv("pplv_c16")
+    h = ctx.compile_harness("c16_rows.cc")
+    R = Runner(ctx, h, drv, ctx.workdir())
+    obj = json.load(open(path))
+    ops = obj.get("ops", [])
+    print("property=C16 what=%s" % obj.get("what", "-")[:300])
+    mm, jpath = R.replay(ops, "user-replay")
+    for line in open(jpath, errors="replace"):
+        if line[0] in "TRX":
+            print("  " + line.rstrip()[:240])
+    for i, o, d in mm:
+        print("  MISMATCH %s %s %s" % (i, o, d[:300]), flush=True)
+    if not mm:
+        print("replay of %d operations: every observation agrees with the model" % len(ops))
+        return 0
+    rec = {"site": "?", "tags": []}
+    for cand_op in reversed(ops):
+        c = classify(cand_op.split())
+        if c["tags"]:
+            rec = c
+            break
+    k = ctx.match_known(rec)
+    if k is not None:
+        print("KNOWN-FINDING: property=C16 %s [%s]" % (k["what"][:200], k["id"]))
+        return 0
+    print("VIOLATION property=C16 replay=%s%s" % (path, "" if any(o not in MODEL_ONLY for _, o, _ in mm)
+                                                  else " no-failing-input-found"))
+    return 1
+
+
 def run(ctx):
     t0 = time.time()
     ctx.ensure_ppl()
